@@ -79,6 +79,7 @@ PROPS["C10"] = {
 }
 
 PROPS["DEVTEST"] = {"suites": [("comp_dev", "gen_cases")], "rule": "dev model bring-up"}
+PROPS["C12TEST"] = {"suites": [("comp_dev", "gen_c12")], "rule": "c12 bring-up"}
 
 MANIFEST_TEXT = {
     "C20": {
